@@ -181,6 +181,8 @@ def weave_fn(it, ctx, meta, modpath, in_trait_decl=False):
         htxt = htxt[:m.start()] + "(self" + htxt[m.end():]
         ctx.log.append({"rule": "R2", "file": ctx.cur_file, "line": it.line, "what": "mut self in %s" % key})
     # return value naming / type replacement
+    if ent and not ent.ret and (ent.ensures or ent.prefix or ent.inserts) and "->" in htxt:
+        ent.ret = "r"
     if ent and (ent.ret or ent.rettype):
         # find top-level '->'
         depth = 0
@@ -363,7 +365,7 @@ def generate(repo, contracts, twin=False, only=None):
     lemmas_path = os.path.join(contracts, "lemmas.rs")
     lemmas = open(lemmas_path).read() if os.path.exists(lemmas_path) else ""
 
-    MODHDR = "#[allow(unused_imports)] use vstd::prelude::*;\n#[allow(unused_imports)] use crate::vp::*;\n#[allow(unused_imports)] use crate::rfc::*;\n"
+    MODHDR = "#[allow(unused_imports)] use vstd::prelude::*;\n#[allow(unused_imports)] use crate::vp::*;\n#[allow(unused_imports)] use crate::rfc::*;\n#[allow(unused_imports)] use vstd::string::*;\n"
     parts = []
     parts.append("// GENERATED by /verif/vgen/vgen.py from the working tree of /repo -- do not edit\n"
                  "#![allow(unused_imports, dead_code, unused_variables, unused_mut, unused_assignments, unused_parens, unused_braces, non_snake_case, unreachable_code, unused_macros)]\n"
@@ -372,7 +374,7 @@ def generate(repo, contracts, twin=False, only=None):
     parts.append("pub mod rfc {\n#[allow(unused_imports)] use vstd::prelude::*;\n#[allow(unused_imports)] use crate::vp::*;\n" + rfc + "\n}\n")
 
     def wrap(modpath):
-        return "verus! {\n" + mods[modpath] + "\n} // verus!\n"
+        return "verus! {\nbroadcast use {crate::vp::group_lang, crate::vp::group_cow};\n" + mods[modpath] + "\n} // verus!\n"
 
     if "lib" in mods:
         parts.append(MODHDR.replace("use crate::vp::*", "use crate::vp::*") + wrap("lib"))
